@@ -466,6 +466,9 @@ func normOf(bits uint64) float64 {
 	return float64(float32(1.0 / math.Sqrt(float64(uint32(bits)))))
 }
 
+// dvChunkDocs: documents per doc-value chunk (fixed, independent of the chunk mode).
+const dvChunkDocs = 1024
+
 func (f *file) decodeDocValues(res *Result, name string, start, end uint64) error {
 	c := res.Content
 	if end < start+16 || end > uint64(len(f.mem)) {
@@ -512,6 +515,10 @@ func (f *file) decodeDocValues(res *Result, name string, start, end uint64) erro
 		for _, m := range mds {
 			if m.end < p || m.end > uint64(len(data)) {
 				return fmt.Errorf("chunk %d doc %d offsets", i, m.doc)
+			}
+			// doc values are chunked by 1024 documents whatever the footer's chunk mode says
+			if m.doc/dvChunkDocs != uint64(i) {
+				return fmt.Errorf("doc %d is stored in doc-value chunk %d, the layout puts it in chunk %d (doc / %d)", m.doc, i, m.doc/dvChunkDocs, dvChunkDocs)
 			}
 			seg := data[p:m.end]
 			p = m.end
